@@ -71,6 +71,12 @@ def cases(ctx):
                             if ctx.mine(k):
                                 yield {"kind": "keep", "variant": var, "bells": list(bells), "hardware": hw,
                                        "others": others, "expect_phi_plus": expect}
+                            if hw == "nv" and n <= 2:
+                                k += 1
+                                take = rng.random() < 0.5
+                                if ctx.mine(k) and (not ctx.quick or take):
+                                    yield {"kind": "keep", "variant": var, "bells": list(bells), "hardware": "nvc",
+                                           "others": others, "expect_phi_plus": expect}
                             if not var.endswith("_retry") and "rsp" not in var:
                                 # the link layer hands its responses over as qlink-interface 1.0 objects (own Bell-state enum)
                                 k += 1
@@ -157,7 +163,11 @@ def _keep(ctx, case):
     else:
         req = PlannedRequest(role, tp, n, bells=bells)
         link = LinkModel([req], qlink10=bool(case.get("qlink10")))
-    pipe = Pipe(epr_sockets=[es], link=link, max_qubits=(n + others) if case.get("tight") else max(budget, 2), hardware=hw)
+    # ("nvc": the node is made an NV node by its compiler alone - compiler=NVSubroutineTranspiler with the default hardware config)
+    pipe = Pipe(epr_sockets=[es], link=link, max_qubits=(n + others) if case.get("tight") else max(budget, 2),
+                hardware="generic" if hw == "nvc" else hw, transpile=True if hw == "nvc" else None)
+    if hw == "nvc":
+        hw = "nv"
     ex = pipe.ex
     seq_results = []
     seen_meas = []
